@@ -118,49 +118,19 @@ func (ft *funcTrans) loopEnv(li *loopInfo, pick func(*ssa.Phi) Term) map[string]
 	for k, v := range ft.env {
 		env[k] = v
 	}
-	// source-level names of values defined in blocks that dominate the header
-	var doms []*ssa.BasicBlock
-	for _, b := range ft.fn.Blocks {
-		if b != li.header && b.Dominates(li.header) {
-			doms = append(doms, b)
-		}
+	for k, v := range ft.namesAtHeader(li.header) {
+		env[k] = v
 	}
-	depth := func(b *ssa.BasicBlock) int {
-		n := 0
-		for x := b; x != nil; x = x.Idom() {
-			n++
-		}
-		return n
-	}
-	sort.Slice(doms, func(i, j int) bool { return depth(doms[i]) < depth(doms[j]) })
-	for _, b := range doms {
-		for _, in := range b.Instrs {
-			if phi, isPhi := in.(*ssa.Phi); isPhi {
-				if phi.Comment != "" && phi.Comment != "rangeindex" {
-					if v, ok := ft.vals[phi]; ok && v.L == nil && v.Tup == nil && v.Bad == "" {
-						if _, isParam := ft.env[phi.Comment]; !isParam {
-							env[phi.Comment] = v.T
-						}
-					}
-				}
-				continue
-			}
-			dr, ok := in.(*ssa.DebugRef)
-			if !ok || dr.IsAddr {
-				continue
-			}
-			id, ok := dr.Expr.(*ast.Ident)
-			if !ok {
-				continue
-			}
-			if v, ok := ft.vals[dr.X]; ok && v.L == nil && v.Tup == nil && v.Bad == "" {
-				if _, isParam := ft.env[id.Name]; !isParam {
-					env[id.Name] = v.T
-				}
-			} else if c, ok := dr.X.(*ssa.Const); ok {
-				_ = c
-				env[id.Name] = ft.valOf(dr.X).T
-			}
+	{
+		// ghost iteration counter of this loop: 0 on entry, k at the header, k+1 on a back edge
+		k := ft.w.declConst(fmt.Sprintf("iter!loop%d", li.ordinal), ft.w.goInt())
+		switch ft.iterMode {
+		case "entry":
+			env["#iter"] = ft.w.intLit64(0, ft.w.goInt())
+		case "back":
+			env["#iter"] = ft.w.arith("+", k, ft.w.intLit64(1, ft.w.goInt()))
+		default:
+			env["#iter"] = k
 		}
 	}
 	// enclosing loops' phis first (outer to inner), then own
@@ -214,11 +184,13 @@ func (ft *funcTrans) loopHeader(li *loopInfo, fwdPreds []*ssa.BasicBlock, merged
 			pst := ft.out[p]
 			edge := ft.edges[[2]int{p.Index, b.Index}]
 			pi := predIndex(b, p)
+			ft.iterMode = "entry"
 			env := ft.loopEnv(li, func(phi *ssa.Phi) Term {
 				return ft.coerceTo(ft.termOf(phi.Edges[pi]), w.sortOf(phi.Type()))
 			})
+			ft.iterMode = ""
 			for k, inv := range li.lc.Invariants {
-				ec := &evalCtx{w: w, pkg: ft.pkgTypes(), env: env, st: pst, old: ft.entry, lets: ft.lets()}
+				ec := &evalCtx{w: w, pkg: ft.pkgTypes(), env: env, st: pst, old: ft.entry, lets: ft.lets(), cells: ft.envCells, ft: ft}
 				t := ec.evalBool(inv.E)
 				saved := ft.reach[b]
 				ft.reach[b] = edge
@@ -292,7 +264,8 @@ func (ft *funcTrans) assumeInvariants(li *loopInfo) {
 		return
 	}
 	env := ft.loopEnv(li, func(phi *ssa.Phi) Term { return ft.vals[phi].T })
-	ec := &evalCtx{w: w, pkg: ft.pkgTypes(), env: env, st: li.hdrState, old: ft.entry, lets: ft.lets()}
+	ft.assume(ft.w.arith(">=", env["#iter"], ft.w.intLit64(0, ft.w.goInt())).S)
+	ec := &evalCtx{w: w, pkg: ft.pkgTypes(), env: env, st: li.hdrState, old: ft.entry, lets: ft.lets(), cells: ft.envCells, ft: ft}
 	for k, inv := range li.lc.Invariants {
 		t := ec.evalBool(inv.E)
 		w.curTag = fmt.Sprintf("inv:%d:%d", li.ordinal, k+1)
@@ -325,10 +298,12 @@ func (ft *funcTrans) backEdge(from *ssa.BasicBlock, li *loopInfo, edgeCond strin
 		return
 	}
 	pi := predIndex(li.header, from)
+	ft.iterMode = "back"
 	env := ft.loopEnv(li, func(phi *ssa.Phi) Term {
 		return ft.coerceTo(ft.termOf(phi.Edges[pi]), w.sortOf(phi.Type()))
 	})
-	ec := &evalCtx{w: w, pkg: ft.pkgTypes(), env: env, st: ft.curSt, old: ft.entry, lets: ft.lets()}
+	ft.iterMode = ""
+	ec := &evalCtx{w: w, pkg: ft.pkgTypes(), env: env, st: ft.curSt, old: ft.entry, lets: ft.lets(), cells: ft.envCells, ft: ft}
 	saved := ft.reach[ft.cur]
 	ft.reach[ft.cur] = edgeCond
 	for k, inv := range li.lc.Invariants {
@@ -394,6 +369,22 @@ func (ft *funcTrans) instrMods(in ssa.Instruction, li *loopInfo) {
 		li.modHeaps[w.elemHeap(es)] = true
 	case *ssa.Go, *ssa.Defer, *ssa.RunDefers:
 		li.modAll = true
+	case *ssa.Send, *ssa.Select:
+		for name, srt := range w.P.Spec.Ghosts {
+			if w.P.Spec.Async[name] {
+				w.heapSorts["G_ghost."+name] = srt
+				li.modHeaps["G_ghost."+name] = true
+			}
+		}
+	case *ssa.UnOp:
+		if x.Op == token.ARROW {
+			for name, srt := range w.P.Spec.Ghosts {
+				if w.P.Spec.Async[name] {
+					w.heapSorts["G_ghost."+name] = srt
+					li.modHeaps["G_ghost."+name] = true
+				}
+			}
+		}
 	case ssa.CallInstruction:
 		com := x.Common()
 		if bi, ok := com.Value.(*ssa.Builtin); ok {
@@ -577,4 +568,89 @@ func relatedInvariants(li *loopInfo, k int) map[string]bool {
 		}
 	}
 	return set
+}
+
+// namesAtHeader: source-level names of values defined in blocks that strictly dominate b.
+func (ft *funcTrans) namesAtHeader(hdr *ssa.BasicBlock) map[string]Term {
+	env := map[string]Term{}
+	li := &loopInfo{header: hdr}
+	// source-level names of values defined in blocks that dominate the header
+	var doms []*ssa.BasicBlock
+	for _, b := range ft.fn.Blocks {
+		if b != li.header && b.Dominates(li.header) {
+			doms = append(doms, b)
+		}
+	}
+	depth := func(b *ssa.BasicBlock) int {
+		n := 0
+		for x := b; x != nil; x = x.Idom() {
+			n++
+		}
+		return n
+	}
+	sort.Slice(doms, func(i, j int) bool { return depth(doms[i]) < depth(doms[j]) })
+	for _, b := range doms {
+		for _, in := range b.Instrs {
+			if phi, isPhi := in.(*ssa.Phi); isPhi {
+				if phi.Comment != "" && phi.Comment != "rangeindex" {
+					if v, ok := ft.vals[phi]; ok && v.L == nil && v.Tup == nil && v.Bad == "" {
+						if _, isParam := ft.env[phi.Comment]; !isParam {
+							env[phi.Comment] = v.T
+						}
+					}
+				}
+				continue
+			}
+			dr, ok := in.(*ssa.DebugRef)
+			if !ok || dr.IsAddr {
+				continue
+			}
+			id, ok := dr.Expr.(*ast.Ident)
+			if !ok {
+				continue
+			}
+			if v, ok := ft.vals[dr.X]; ok && v.L == nil && v.Tup == nil && v.Bad == "" {
+				if _, isParam := ft.env[id.Name]; !isParam {
+					env[id.Name] = v.T
+				}
+			} else if c, ok := dr.X.(*ssa.Const); ok {
+				_ = c
+				env[id.Name] = ft.valOf(dr.X).T
+			}
+		}
+	}
+	return env
+}
+
+// namesAt: params plus names visible at block b (dominating definitions and b's own so far).
+func (ft *funcTrans) namesAt(b *ssa.BasicBlock) map[string]Term {
+	env := map[string]Term{}
+	for k, v := range ft.env {
+		env[k] = v
+	}
+	for k, v := range ft.namesAtHeader(b) {
+		env[k] = v
+	}
+	if b != nil {
+		for _, in := range b.Instrs {
+			switch x := in.(type) {
+			case *ssa.Phi:
+				if x.Comment != "" && x.Comment != "rangeindex" {
+					if v, ok := ft.vals[x]; ok && v.L == nil && v.Tup == nil && v.Bad == "" {
+						env[x.Comment] = v.T
+					}
+				}
+			case *ssa.DebugRef:
+				if x.IsAddr {
+					continue
+				}
+				if id, ok := x.Expr.(*ast.Ident); ok {
+					if v, ok := ft.vals[x.X]; ok && v.L == nil && v.Tup == nil && v.Bad == "" {
+						env[id.Name] = v.T
+					}
+				}
+			}
+		}
+	}
+	return env
 }
